@@ -576,8 +576,15 @@ def import_rules(res, prog, ctx, rule, pack, rules, what, floor, key_filter=None
     """decide `rule` of this pack by the structural rules `rules` of a sibling pack (a violation there is a violation here,
     keyed by the sibling's key); a sibling that cannot run leaves the obligation undecided"""
     import importlib
+    stack = tuple(ctx.get("_import_stack", ()))
+    if pack in stack or len(stack) > 4:
+        # packs importing each other in a circle: the inner import is skipped (its rules are decided by the outer run)
+        res.extra.setdefault("undecided_items", []).append("%s: import of %s skipped (import cycle %s)" % (rule, pack, "->".join(stack)))
+        res.obligations += 1
+        res.undecided += 1
+        return
     try:
-        r = importlib.import_module("analyzer.rules." + pack).run(prog, dict(ctx))
+        r = importlib.import_module("analyzer.rules." + pack).run(prog, dict(ctx, _import_stack=stack + (rule.split(".")[0], pack)))
     except Exception as ex:
         res.extra.setdefault("undecided_items", []).append("%s could not run %s: %r" % (rule, pack, ex))
         res.obligations += 1
